@@ -225,6 +225,20 @@ func driveDirect(c *Ctx, wName, wFormat string, desc []string, plan simio.Plan, 
 		c.Count("pooled-nodes-checked", int64(len(pooled)))
 		idr.VerifRefillNodePool(pooled)
 	}
+	inspectPoolOnly := func() {
+		if problem != "" {
+			return
+		}
+		pooled := idr.VerifDrainNodePool()
+		seen := make(map[*idr.Node]bool, len(pooled))
+		for _, n := range pooled {
+			if seen[n] {
+				problem = fmt.Sprintf("between two statements of the library: %d nodes in the pool; node %p (last ID %d) is among them more than once", len(pooled), n, n.ID)
+			}
+			seen[n] = true
+		}
+		idr.VerifRefillNodePool(pooled)
+	}
 	gapIdx := 0
 	gap := func() {
 		g, k := gaps[gapIdx%len(gaps)], gapN[gapIdx%len(gapN)]
@@ -274,6 +288,18 @@ func driveDirect(c *Ctx, wName, wFormat string, desc []string, plan simio.Plan, 
 			mineOrder = nil
 		}
 	}
+	if sched.Instrumented && !c.Race {
+		// in the instrumented flavour the pool is also looked at between the statements of the library
+		// (every fifth statement at a drawn phase): a node released twice and taken out again twice a
+		// moment later never shows between two calls
+		phase, n := c.T.Intn("c12d.pool-probe.phase", 5), 0
+		sched.StatementProbe = func() {
+			if n++; n%5 == phase {
+				inspectPoolOnly()
+			}
+		}
+		defer func() { sched.StatementProbe = nil }()
+	}
 	audited, reads, afterTerminal := 0, 0, 0
 	var last *idr.Node
 	readOnce := func() (n *idr.Node, err error, panicked string) {
@@ -287,9 +313,6 @@ func driveDirect(c *Ctx, wName, wFormat string, desc []string, plan simio.Plan, 
 	}
 	terminalSeen := false
 	for reads < 600 && problem == "" {
-		if sched.Instrumented {
-			// nothing to interleave with: one task
-		}
 		n, err, p := readOnce()
 		reads++
 		if p != "" {
